@@ -26,6 +26,7 @@ from ..impl import run_impl
 from ..model import run_model
 from . import _adaptive as A
 from . import _legs as LG
+from . import _c14_gen
 from .c13 import choose_limits, q, finite
 
 ASSUMPTIONS = [
@@ -34,6 +35,7 @@ ASSUMPTIONS = [
     'dill save/restore: runtime comparison of restored vs saved instance and of the continuation after restore',
     'max_time not modelled; results compared with 1e-12 relative tolerance, structures/schemes/point counts exactly',
     'defaults of the entry points (tol 10**-2 / 10**-3, min_evaluations 1, max_evaluations None) are constants of the model',
+    _c14_gen.ASSUMPTION,
 ]
 
 TOL = 1e-12
@@ -786,7 +788,9 @@ CORPUS = [
 
 
 def run(chk):
-    chk.coq_obligations()
+    gen_info = _c14_gen.regenerate(chk)      # source-derived new-object marker: regenerated BEFORE the obligations are rebuilt
+    chk.coq_obligations(extra_props=_c14_gen.EXTRA_PROPS)
+    gen_problem = _c14_gen.diagnose(chk, gen_info)
     n = chk.n(84, 700)
     cases = CORPUS + [gen_case(chk.rng, chk.quick) for _ in range(n)]
     impl = run_impl(impl_run, cases, limit=150)
@@ -854,6 +858,7 @@ def run(chk):
     mres = run_model(14, mjobs)
     for ev in todo:
         ev(mres)
+    _c14_gen.finish(chk, gen_info, gen_problem)     # broken source-derived obligation and no concrete failing input found above
     chk.record_cases(sum(len(r['runs']) + (1 if r.get('checkpoint') else 0) for (st, r) in impl if st == 'ok'), keys,
                      'interrupted histories for every interruption index (<= 6 per run, always incl. first and last) of uninterrupted dimension-wise / '
                      'extend-split / cell runs (d 2..3, lmax 2..3, reference given/zero/none, norms, library and scripted error calculators, final limits '
